@@ -12,6 +12,20 @@ EXTENDS MxSem
 
 Lbl(b, s) == IF b THEN {} ELSE {s}
 
+\* definitions record from its JSON form (see harness/world.py)
+DefsOf(j) ==
+    [ sp    |-> Range(j.sp),
+      bases |-> PairsToFun(j.bases),
+      cells |-> PairsToFun(j.cells),
+      refs  |-> PairsToFun(j.refs),
+      grefs |-> j.grefs,
+      pf    |-> PairsToFun(j.pf),
+      inp   |-> PairsToFun(j.inp),
+      an    |-> j.an,
+      span  |-> PairsToFun(j.span),
+      flib  |-> j.flib ]
+
+
 -----------------------------------------------------------------------------
 (* Formula-execution log: a sequence of                                    *)
 (*   <<"enter", node>> | <<"exit", node, value>> | <<"unwind", node, exctype, line>> *)
@@ -38,6 +52,35 @@ ChainOf(fx) ==
         n == Len(fx) IN
     [i \in 1..k |-> <<fx[n - i + 1][2], fx[n - i + 1][4]>>]
 
+\* index of the "enter" record matching the exit/unwind record at j
+RECURSIVE MatchEnter(_, _, _)
+MatchEnter(fx, j, bal) ==      \* start with MatchEnter(fx, j - 1, 0)
+    IF j = 0 THEN 0
+    ELSE IF fx[j][1] = "enter"
+         THEN IF bal = 0 THEN j ELSE MatchEnter(fx, j - 1, bal - 1)
+         ELSE MatchEnter(fx, j - 1, bal + 1)
+
+\* elements whose formula completed although a formula it called failed
+\* (its handler swallowed the failure): KNOWN FINDING KF1 -- the failed callee
+\* leaves no trace in the dependency graph, so such a value is not discarded
+\* when the callee is repaired.  Values computed from them inherit the taint.
+Swallowers(DD, fx) ==
+    \* x completed normally although some formula inside its span failed: the
+    \* failure was swallowed by x or by an element whose value x consumed
+    {fx[j][2] : j \in {x \in ExitIdx(fx) :
+        LET i == MatchEnter(fx, x - 1, 0) IN
+        \E y \in (i + 1)..(x - 1) :
+            \/ fx[y][1] = "unwind"
+            \/ (fx[y][1] = "exit" /\ fx[y][3] = NoneV
+                /\ ~AllowNone(DD, <<fx[y][2][1], fx[y][2][2]>>, fx[y][2][3]))}}
+
+RECURSIVE TaintClosure(_, _, _)
+TaintClosure(DD, held, t) ==
+    IF t = {} THEN {} ELSE
+    LET more == {n \in held \ t : ~IsInput(DD, n) /\ NodeExists(DD, n)
+                                   /\ CalledThrough(DD, n) \cap t # {}} IN
+    IF more = {} THEN t ELSE TaintClosure(DD, held, t \cup more)
+
 -----------------------------------------------------------------------------
 RECURSIVE ReachFrom(_, _, _)
 ReachFrom(E, front, seen) ==
@@ -51,16 +94,18 @@ GraphAcyclic(N, E) == \A n \in N : n \notin ReachFrom(E, {n}, {})
 \* idle = executor stacks empty and nothing marked executing, sane = the
 \* library's self checks passed, det = the surviving inputs are fixed by
 \* the properties for this kind of operation.
-StateLabels(tag, D2, dl, il, tgn, tge, idle, sane, det) ==
+StateLabels(tag, D2, dl, il, tgn, tge, idle, sane, det, taint) ==
     LET held == DOMAIN dl
         alive == {n \in held : NodeExists(D2, n)}
         calc  == alive \ il
         cellnodes == {n \in tgn : n[3] # "" /\ n[4] # ObjKey}
+        stale == {n \in calc : dl[n] # Den(D2, n)}
     IN
       Lbl(held = alive, "C13.NoResidue")
-      \cup Lbl(\A n \in calc : (dl[n] = Den(D2, n)
-                  \/ ~PrintT(<<"INFO", tag, "held", n, "value", dl[n], "expected", Den(D2, n)>>)),
+      \cup Lbl(\A n \in stale \ taint :
+                  ~PrintT(<<"INFO", tag, "held", n, "value", dl[n], "expected", Den(D2, n)>>),
                "C02.NoStale")
+      \cup Lbl(stale \cap taint = {}, "KF:C02.caught-failure")
       \cup Lbl(\A n \in alive : IsCachedNode(D2, n), "C09.UncachedHoldNothing")
       \cup Lbl(det => il = DOMAIN D2.inp, "C06.InputsPersist")
       \cup Lbl(\A n \in il \cap DOMAIN D2.inp : n \in held /\ dl[n] = D2.inp[n], "C06.InputWins")
@@ -72,8 +117,8 @@ StateLabels(tag, D2, dl, il, tgn, tge, idle, sane, det) ==
 
 \* dependency listings: rows = set of <<node, preds (set), succs (set)>> as
 \* reported by preds()/succs() for every element holding a value
-DepsLabels(tag, D2, il, allrows) ==
-    LET rows == {r \in allrows : NodeExists(D2, r[1]) /\ r[1] \notin il} IN
+DepsLabels(tag, D2, il, allrows, taint) ==
+    LET rows == {r \in allrows : NodeExists(D2, r[1]) /\ r[1] \notin il /\ r[1] \notin taint} IN
       Lbl(\A r \in rows : (r[2] = GraphPreds(D2, r[1])
               \/ ~PrintT(<<"INFO", tag, "preds", r[1], "reported", r[2], "expected", GraphPreds(D2, r[1])>>)),
           "C08.PredsExact")
@@ -83,7 +128,7 @@ DepsLabels(tag, D2, il, allrows) ==
 \* A top-level call of element n under definitions DD returned res (a value
 \* or an error code); pre = held values before, dl = after, fx = execution log.
 \* maxdepth = 0 when no recursion limit was configured for the run.
-CallLabels(tag, DD, n, res, pre, dl, fx, maxdepth) ==
+CallLabels(tag, DD, n, res, pre, dl, fx, maxdepth, taint) ==
     LET exp  == Den(DD, n)
         cachedT == IsCachedNode(DD, n)
         \* a DeepReferenceError is history dependent by design: it is legitimate
@@ -91,8 +136,10 @@ CallLabels(tag, DD, n, res, pre, dl, fx, maxdepth) ==
         deepOK == maxdepth > 0 /\ MaxDepth(fx) >= maxdepth + 1
     IN
       Lbl(IF res = ErrDeep THEN deepOK
-          ELSE (res = exp \/ ~PrintT(<<"INFO", tag, "call", n, "returned", res, "expected", exp>>)),
+          ELSE (res = exp \/ n \in taint
+                \/ ~PrintT(<<"INFO", tag, "call", n, "returned", res, "expected", exp>>)),
           "C01.Transparent")
+      \cup Lbl(res = ErrDeep \/ res = exp \/ n \notin taint, "KF:C01.caught-failure")
       \cup Lbl(\A m \in Enters(fx) : IsCachedNode(DD, m) => m \notin DOMAIN pre, "C01.ComputedOnce")
       \cup Lbl(\A m \in Enters(fx) : IsCachedNode(DD, m) =>
                   Cardinality({j \in ExitIdx(fx) : fx[j][2] = m /\ fx[j][3] # NoneV}) <= 1, "C01.ComputedOnceInCall")
@@ -118,16 +165,19 @@ TracebackLabels(tag, res, fx, tb) ==
       \cup Lbl(\A i \in 1..Len(chain) : i <= Len(tb) => tb[i][2] = chain[i][2], "C17.TracebackLines")
 
 \* set_value / clear_at of element n (accepted): exactly the dependents go
-ValueEditLabels(tag, DD, D2, isSet, n, pre, dl, fx, recalc) ==
+ValueEditLabels(tag, DD, D2, isSet, n, pre, dl, fx, recalc, taint) ==
     LET P == DOMAIN pre
         gone == {x \in P : x # n /\ ~IsInput(DD, x) /\ n \in DepsStar(DD, x)}
+        \* what tainted values depended on when they were computed is not
+        \* recoverable from the current definitions: they may stay or go
+        free == taint
         want == IF isSet THEN (P \ gone) \cup {n} ELSE P \ (gone \cup {n})
     IN
       IF recalc /\ isSet
       THEN Lbl(want \subseteq DOMAIN dl /\
                \A x \in gone : (~IsErr(Den(D2, x))) => x \in DOMAIN dl, "C06.RecalcEqLazy")
            \cup Lbl(\A x \in (P \ (gone \cup {n})) \cap DOMAIN dl : dl[x] = pre[x], "C06.SurvivorsUnchanged")
-      ELSE Lbl(DOMAIN dl = want \/ ~PrintT(<<"INFO", tag, "discard", n, "missing", want \ DOMAIN dl, "extra", DOMAIN dl \ want>>), "C06.ExactDiscard")
+      ELSE Lbl(DOMAIN dl \ free = want \ free \/ ~PrintT(<<"INFO", tag, "discard", n, "missing", want \ DOMAIN dl, "extra", DOMAIN dl \ want>>), "C06.ExactDiscard")
            \cup Lbl(\A x \in (P \ (gone \cup {n})) \cap DOMAIN dl : dl[x] = pre[x], "C06.SurvivorsUnchanged")
            \cup Lbl(Len(fx) = 0, "C06.NotRecomputed")
 
